@@ -53,10 +53,21 @@ func (c *constraints) Reserve(p peer.ID, a ma.Multiaddr, expiry time.Time) error
 
 	now := time.Now()
 	c.cleanup(now)
-	// To handle refreshes correctly, remove the existing reservation for the peer.
-	c.cleanupPeer(p)
+	// To handle refreshes correctly, the existing reservation for the peer is
+	// not counted against the limits. It is only replaced once the new
+	// reservation is known to be admissible, so that a refused refresh leaves
+	// the old reservation accounted for.
+	others := func(rs []peerWithExpiry) int {
+		n := 0
+		for _, r := range rs {
+			if r.Peer != p {
+				n++
+			}
+		}
+		return n
+	}
 
-	if len(c.total) >= c.rc.MaxReservations {
+	if others(c.total) >= c.rc.MaxReservations {
 		return errTooManyReservations
 	}
 
@@ -65,22 +76,21 @@ func (c *constraints) Reserve(p peer.ID, a ma.Multiaddr, expiry time.Time) error
 		return errors.New("no IP address associated with peer")
 	}
 
-	ipReservations := c.ips[ip.String()]
-	if len(ipReservations) >= c.rc.MaxReservationsPerIP {
+	if others(c.ips[ip.String()]) >= c.rc.MaxReservationsPerIP {
 		return errTooManyReservationsForIP
 	}
 
-	var asnReservations []peerWithExpiry
 	var asn uint32
 	if ip.To4() == nil {
 		asn = asnutil.AsnForIPv6(ip)
-		if asn != 0 {
-			asnReservations = c.asns[asn]
-			if len(asnReservations) >= c.rc.MaxReservationsPerASN {
-				return errTooManyReservationsForASN
-			}
+		if asn != 0 && others(c.asns[asn]) >= c.rc.MaxReservationsPerASN {
+			return errTooManyReservationsForASN
 		}
 	}
+
+	c.cleanupPeer(p)
+	ipReservations := c.ips[ip.String()]
+	asnReservations := c.asns[asn]
 
 	c.total = append(c.total, peerWithExpiry{Expiry: expiry, Peer: p})
 
